@@ -423,7 +423,16 @@ func runFlagAffine(c *core.Ctx) []core.Obligation {
 			sort.Strings(out)
 			return out
 		}
-		if sz.opaque || en.opaque {
+		if sz.opaque != en.opaque {
+			n++
+			which, other := "size", "encode"
+			if en.opaque {
+				which, other = "encode", "size"
+			}
+			b.bad(key, c.FuncPos(sz.fn), fmt.Sprintf("the %s closure of proto.%s*FuncOf hands the wrapped codec flags that are not a fixed function (flags & keep) | set of its own flags (a mask chosen per codec at construction), the %s closure a fixed one: the two can disagree — a **int reached with inline set is sized from the wrong memory, Size(v) no longer matches what MarshalTo writes", which, fam, other))
+			continue
+		}
+		if sz.opaque && en.opaque {
 			b.addP([]string{"C16", "C03"}, core.Info, key, c.FuncPos(sz.fn), "a flags argument of this family is not an affine function of the closure's own flags (makeFlags of a field): decided by R-FLAGPASS")
 			continue
 		}
